@@ -88,6 +88,17 @@ Theorem C14_roundtrip_hypotheses_inhabited : wf_marshal ex_circuit /\ wf_bristol
 Proof. exact (conj ex_wf_marshal ex_wf_bristol). Qed.
 Print Assumptions C14_roundtrip_hypotheses_inhabited.
 
+(* FULL (entry point Circuit.MarshalFormat, the format-dispatching writer used by the compiler's
+   Params.CircOut/CircFormat and by apps/garbled): for every format string, circuit and output,
+   if it writes anything then the format is "mpclc" or "bristol", the bytes are exactly those of
+   Marshal resp. MarshalBristol, and (under the round-trip hypotheses) they parse back. *)
+Theorem C14_marshal_format_roundtrip :
+  forall c f bs, MarshalFormat f c = Some bs ->
+    (f = s_mpclc /\ bs = Marshal c /\ (wf_marshal c -> ParseMPCLC bs = Ok (norm c))) \/
+    (f = s_bristol /\ bs = MarshalBristol c /\ (wf_bristol c -> ParseBristol bs = Ok (bristol_norm c))).
+Proof. exact marshal_format_roundtrip. Qed.
+Print Assumptions C14_marshal_format_roundtrip.
+
 (* STATE INVENTORY (finite obligation on the model regenerated from the source, checked by
    computation).  The struct fields and package-level variables of the Go packages this
    property is anchored in — circuit, types — as emitted from /repo's current
